@@ -375,7 +375,7 @@ fn malformed_block(g: &mut Gen, kind: &str) -> (BlockSpec, &'static str) {
                     "check-ai"
                 }
             };
-            let v = *g.rng.pick(&["fatal", "warn", "errors", "", "critical", "1", "error "]);
+            let v = *g.rng.pick(&["fatal", "warn", "errors", "", "critical", "1", "error ", " warning", "\tinfo", "hint."]);
             b.attrs.push(("severity".into(), v.into()));
             carrier
         }
